@@ -20,6 +20,14 @@ of typedefs, enums and struct-likes (one table for the whole multi-file program,
 qualified); `WT d n t v` = `v` is a well-typed value of declared type `t` in canonical form
 (the state an emitted Go struct can be in), nesting depth ≤ `n`. Theorems are for all `d`, `n`.
 
+NAMES ARE PER FILE. A bare IDL name is relative to the file that uses it; the definitions table keys every
+typedef, enum and struct-like by `<file>/<name>` and every `Ty.typedef` / `.enum` / `.struct` carries such a
+key (the harness qualifies each reference with the file it resolves in), so `lookupTypedef`, `lookupStruct`
+and `resolve` never see a bare name: two files that declare `Stamp` as `i32` and as `i64` (or as an enum, or
+a struct) are two unrelated entries, and every theorem below — being for ALL tables `d` — covers programs
+whose files reuse names with different meanings. Only `StructDef.name` (what `WriteStructBegin` is given) is
+the bare name.
+
 IDL DEFAULT VALUES (`Field.dflt`) are part of the model as the generator treats them (header of
 `FV.Model.Thrift`): "set" is what the emitted `IsSet<F>()` says — `isSetIn sd fs f`: listed and, for
 a non-pointer optional field with a default, different from it. Where a struct has no such field,
